@@ -508,6 +508,143 @@ def translate_parser(tree):
               and all(isinstance(s, (ast.Assign, ast.If, ast.Expr)) and "dim_str" not in _src(s).replace("isinstance(dim_str, str)", "") for s in _strip(fn.body[:k])))
     return body, tr.loops or [".unknown"], bool(header), tr.notes
 
+# ----------------------------------------------------------------------------- index arithmetic of _check_shape
+
+
+def _iexp(e):
+    src = _src(e)
+    if src in ("cls.index_variadic", "i") :
+        return ".iv" if src == "cls.index_variadic" else None
+    if src == "len(cls.dims)":
+        return ".lenDims"
+    if src in ("len(obj.shape)", "obj.ndim"):
+        return ".lenShape" if src == "len(obj.shape)" else ".unknown"
+    if isinstance(e, ast.Constant) and isinstance(e.value, int) and not isinstance(e.value, bool):
+        return f"(.lit {e.value})" if e.value >= 0 else f"(.lit ({e.value}))"
+    if isinstance(e, ast.UnaryOp) and isinstance(e.op, ast.USub):
+        a = _iexp(e.operand)
+        return f"(.neg {a})" if a else None
+    if isinstance(e, ast.BinOp) and isinstance(e.op, (ast.Sub, ast.Add)):
+        a, b = _iexp(e.left), _iexp(e.right)
+        if a and b:
+            return f"(.{'sub' if isinstance(e.op, ast.Sub) else 'add'} {a} {b})"
+    return None
+
+
+def _icmp(test, env):
+    ops = {ast.NotEq: "ne", ast.Eq: "eq", ast.Lt: "lt", ast.LtE: "le", ast.Gt: "gt", ast.GtE: "ge"}
+    if isinstance(test, ast.Compare) and len(test.ops) == 1 and type(test.ops[0]) in ops:
+        a, b = _iexp_env(test.left, env), _iexp_env(test.comparators[0], env)
+        if a and b:
+            return f"({a}, .{ops[type(test.ops[0])]}, {b})"
+    return "(.unknown, .eq, .unknown)"
+
+
+def _iexp_env(e, env):
+    """like _iexp, with the locals `i` (and other integer locals) replaced by what they were assigned"""
+    if isinstance(e, ast.Name) and e.id in env:
+        return env[e.id]
+    if isinstance(e, ast.UnaryOp) and isinstance(e.op, ast.USub):
+        a = _iexp_env(e.operand, env)
+        return f"(.neg {a})" if a else None
+    if isinstance(e, ast.BinOp) and isinstance(e.op, (ast.Sub, ast.Add)):
+        a, b = _iexp_env(e.left, env), _iexp_env(e.right, env)
+        if a and b:
+            return f"(.{'sub' if isinstance(e.op, ast.Sub) else 'add'} {a} {b})"
+        return None
+    return _iexp(e)
+
+
+def _bnd(e):
+    if e is None:
+        return ".omitted"
+    return {"i": ".i", "j": ".j"}.get(_src(e), ".unknown")
+
+
+def _slice_of(e, base):
+    """`<base>[lo:hi]` -> (lo, hi) bounds, or None"""
+    if isinstance(e, ast.Subscript) and _src(e.value) == base and isinstance(e.slice, ast.Slice) and e.slice.step is None:
+        return f"({_bnd(e.slice.lower)}, {_bnd(e.slice.upper)})"
+    return None
+
+
+def translate_slices(tree):
+    unknown = ("{ noVarFail := (.unknown, .eq, .unknown), varFail := (.unknown, .eq, .unknown), i := .unknown, j := .unknown, jNoneIfZero := false, "
+               "suffixGuarded := false, prefixDims := (.unknown, .unknown), prefixShape := (.unknown, .unknown), suffixDims := (.unknown, .unknown), "
+               "suffixShape := (.unknown, .unknown), midFirst := (.unknown, .unknown), midBound := (.unknown, .unknown), varIndex := .unknown }")
+    cls = next((n for n in tree.body if isinstance(n, ast.ClassDef) and n.name == "_MetaAbstractArray"), None)
+    fn = next((n for n in (cls.body if cls else []) if isinstance(n, ast.FunctionDef) and n.name == "_check_shape"), None)
+    if fn is None:
+        return unknown, "no _check_shape"
+    body = _strip(fn.body)
+    if len(body) != 1 or not isinstance(body[0], ast.If) or _src(body[0].test) not in ("cls.index_variadic is None", "cls.index_variadic is not None"):
+        return unknown, "top-level split on cls.index_variadic not recognised"
+    top = body[0]
+    novar, var = (top.body, top.orelse) if _src(top.test) == "cls.index_variadic is None" else (top.orelse, top.body)
+    novar, var = _strip(novar), _strip(var)
+    # no multi-axis specifier: `if <rank test>: return <msg>` then `return _check_dims(cls.dims, obj.shape, ...)`
+    if not (len(novar) == 2 and isinstance(novar[0], ast.If) and len(novar[0].body) == 1 and _is_message_return(novar[0].body[0]) and not novar[0].orelse
+            and isinstance(novar[1], ast.Return) and _src(novar[1].value).startswith("_check_dims(cls.dims, obj.shape,")):
+        return unknown, "branch without a multi-axis specifier not recognised"
+    f1 = _icmp(novar[0].test, {})
+    # with one: rank test, i, j, j-None rule, prefix, guarded suffix
+    if not (var and isinstance(var[0], ast.If) and len(var[0].body) == 1 and _is_message_return(var[0].body[0]) and not var[0].orelse):
+        return unknown, "rank test of the multi-axis branch not recognised"
+    f2 = _icmp(var[0].test, {})
+    env, i_exp, j_exp, jnone = {}, None, None, False
+    k = 1
+    while k < len(var):
+        st = var[k]
+        if isinstance(st, ast.Assign) and len(st.targets) == 1 and isinstance(st.targets[0], ast.Name) and st.targets[0].id in ("i", "j"):
+            ex = _iexp_env(st.value, env)
+            if ex is None:
+                return unknown, f"value of {st.targets[0].id} not recognised"
+            if st.targets[0].id == "i":
+                i_exp = ex
+                env["i"] = ex
+            else:
+                j_exp = ex
+            k += 1
+        elif isinstance(st, ast.If) and _src(st.test) == "j == 0" and [_src(x) for x in st.body] == ["j = None"] and not st.orelse:
+            jnone = True
+            k += 1
+        else:
+            break
+    if i_exp is None or j_exp is None:
+        return unknown, "assignments of i / j not found"
+    rest = var[k:]
+    # prefix_check = _check_dims(cls.dims[:i], obj.shape[:i], ...); if prefix_check != "": return prefix_check
+    def dims_call(st):
+        if isinstance(st, ast.Assign) and isinstance(st.value, ast.Call) and _src(st.value.func) == "_check_dims" and len(st.value.args) >= 2:
+            return _slice_of(st.value.args[0], "cls.dims"), _slice_of(st.value.args[1], "obj.shape"), _src(st.targets[0])
+        return None
+    if len(rest) < 3 or dims_call(rest[0]) is None or not (isinstance(rest[1], ast.If) and _src(rest[1].test) == f"{dims_call(rest[0])[2]} != ''"
+                                                               and [_src(x) for x in rest[1].body] == [f"return {dims_call(rest[0])[2]}"] and not rest[1].orelse):
+        return unknown, "prefix check not recognised"
+    pd, ps, _ = dims_call(rest[0])
+    sfx = rest[2]
+    guarded = False
+    sstmts = None
+    if isinstance(sfx, ast.If) and _src(sfx.test) == "j is not None" and not sfx.orelse:
+        guarded, sstmts, nxt = True, _strip(sfx.body), 3
+    else:
+        sstmts, nxt = rest[2:4], 4
+    if not (len(sstmts) == 2 and dims_call(sstmts[0]) is not None and isinstance(sstmts[1], ast.If) and _src(sstmts[1].test) == f"{dims_call(sstmts[0])[2]} != ''"
+            and [_src(x) for x in sstmts[1].body] == [f"return {dims_call(sstmts[0])[2]}"] and not sstmts[1].orelse):
+        return unknown, "suffix check not recognised"
+    sd, ss, _ = dims_call(sstmts[0])
+    tail = rest[nxt:]
+    # variadic_dim = cls.dims[i]
+    vi = next((_bnd(s.value.slice) for s in tail if isinstance(s, ast.Assign) and _src(s.targets[0]) == "variadic_dim" and isinstance(s.value, ast.Subscript)
+               and _src(s.value.value) == "cls.dims" and not isinstance(s.value.slice, ast.Slice)), ".unknown")
+    mids = [_slice_of(n, "obj.shape") for s in tail for n in ast.walk(s) if isinstance(n, ast.Subscript) and _src(n.value) == "obj.shape"]
+    if len(mids) != 2 or None in (pd, ps, sd, ss) or None in mids:
+        return unknown, "slices of obj.shape for the multi-axis specifier not recognised"
+    plan = (f"{{ noVarFail := {f1}, varFail := {f2}, i := {i_exp}, j := {j_exp}, jNoneIfZero := {'true' if jnone else 'false'}, "
+            f"suffixGuarded := {'true' if guarded else 'false'}, prefixDims := {pd}, prefixShape := {ps}, suffixDims := {sd}, suffixShape := {ss}, "
+            f"midFirst := {mids[0]}, midBound := {mids[1]}, varIndex := {vi} }}")
+    return plan, ""
+
 
 def run():
     with open(os.path.join(REPO, "jaxtyping", "_array_types.py")) as fh:
@@ -516,6 +653,7 @@ def run():
     chain, note1 = translate_check_dims(tree)
     code, first, note2 = translate_variadic(tree)
     stages = translate_stages(tree)
+    plan, note3 = translate_slices(tree)
     txt = f"""/- GENERATED by harness/translate.py from {REPO}/jaxtyping/_array_types.py on every run. Do not edit. -/
 import JaxVerif.Model.SourceDsl
 
@@ -535,6 +673,10 @@ def variadicFirstStoresCurNew : Bool := {'true' if first else 'false'}
 /-- the top-level statements of `__instancecheck_str__`, in source order -/
 def instancecheckStages : List IStage :=
   [{', '.join('.' + x for x in stages)}]
+
+/-- the rank tests and the slices of `_check_shape` around the multi-axis specifier {('(' + note3 + ')') if note3 else ''} -/
+def slicePlan : SlicePlan :=
+  {plan}
 
 end JV.Generated
 """
